@@ -7,6 +7,7 @@ emits them as Lean literals. The Lean model imports these tables instead of rest
 `decide`-style theorems over them are re-proved against the source as it is now.
 The output is only rewritten when its content changes (so Lake rebuilds only when the tables changed).
 """
+import json
 import os
 import re
 import sys
@@ -16,9 +17,38 @@ OUT = os.path.join(ROOT, "lean", "Adb", "Generated", "Tables.lean")
 SRC = os.environ.get("VERIF_REPO_SRC", "/repo/src")
 
 
+class ExtractError(Exception):
+    pass
+
+
 def fail(msg):
-    print("extract_tables: FAILED: " + msg)
-    sys.exit(1)
+    raise ExtractError(msg)
+
+
+FALLBACK_FILE = os.path.join(ROOT, "tools", "tables_fallback.json")
+STATUS_FILE = os.path.join(ROOT, "lean", "Adb", "Generated", "extraction_status.json")
+FAILED = {}
+VALUES = {}
+
+
+def section(name, fn):
+    """One table group. When the source no longer has the shape the extractor understands, the last
+    committed value is used so that everything still builds, and the failure is recorded: the checks
+    whose theorems depend on this table then report the tie to the source as broken (run_check.py);
+    the others are unaffected."""
+    try:
+        v = fn()
+        VALUES[name] = v
+        return v
+    except Exception as e:  # ExtractError, or a parsing accident on restructured source
+        FAILED[name] = f"{type(e).__name__}: {e}"
+        try:
+            fb = json.load(open(FALLBACK_FILE))
+        except Exception:
+            print("extract_tables: FAILED: " + FAILED[name] + " (and no fallback table file)")
+            sys.exit(1)
+        print(f"extract_tables: section {name} could not be re-extracted ({FAILED[name]}); using the committed fallback")
+        return fb[name]
 
 
 def read(rel):
@@ -243,24 +273,30 @@ def shared_cells():
 
 
 def lock_fns():
-    """methods of `impl Blocker`: (name, receiver, borrow_regex_manager() calls, of which let-bound,
-    direct uses of the cell or explicit drops of the guard, methods of self it calls)"""
+    """methods of `impl Blocker`. Accessors are the methods that touch the cell directly
+    (`self.regex_manager`); for every method: (name, receiver, calls of an accessor, of which bound to
+    a local with `let`, direct cell uses / explicit guard drops, methods of self it calls).
+    Returns (accessor names, rows)."""
     src = "\n".join(l for l in read("blocker.rs").split("\n") if not l.lstrip().startswith("//"))
-    out = []
+    fns = []
     for im in re.finditer(r"^impl Blocker \{(.*?)^\}", src, re.S | re.M):
         body = im.group(1)
         starts = [(m.start(), m.group(1)) for m in re.finditer(r"^    (?:pub(?:\([a-z]+\))? )?fn (\w+)", body, re.M)]
         for k, (pos, name) in enumerate(starts):
             end = starts[k + 1][0] if k + 1 < len(starts) else len(body)
-            text = body[pos:end]
-            sig = text[:text.find("{")] if "{" in text else text
-            recv = "&mut self" if "&mut self" in sig else ("&self" if "&self" in sig else ("self" if re.search(r"\(\s*(mut )?self\b", sig) else ""))
-            borrows = len(re.findall(r"borrow_regex_manager\(\)", text)) - (1 if name == "borrow_regex_manager" else 0)
-            letb = len(re.findall(r"let (?:mut )?\w+ = self\.borrow_regex_manager\(\);", text))
-            direct = len(re.findall(r"self\.regex_manager\b", text)) + len(re.findall(r"drop\(\s*regex_manager\s*\)", text))
-            calls = sorted(set(re.findall(r"self\.(\w+)\(", text)))
-            out.append((name, recv, max(borrows, 0), letb, direct, calls))
-    return out
+            fns.append((name, body[pos:end]))
+    accessors = sorted(set(n for n, t in fns if re.search(r"self\.regex_manager\b", t)))
+    acc_re = "|".join(re.escape(a) for a in accessors) or "borrow_regex_manager"
+    out = []
+    for name, text in fns:
+        sig = text[:text.find("{")] if "{" in text else text
+        recv = "&mut self" if "&mut self" in sig else ("&self" if "&self" in sig else ("self" if re.search(r"\(\s*(mut )?self\b", sig) else ""))
+        borrows = 0 if name in accessors else len(re.findall(r"self\.(?:%s)\(\)" % acc_re, text))
+        letb = len(re.findall(r"let (?:mut )?\w+ = self\.(?:%s)\(\);" % acc_re, text))
+        direct = len(re.findall(r"self\.regex_manager\b", text)) + len(re.findall(r"drop\(\s*regex_manager\s*\)", text))
+        calls = sorted(set(re.findall(r"self\.(\w+)\(", text)))
+        out.append((name, recv, borrows, letb, direct, calls))
+    return accessors, out
 
 
 def cb_tables():
@@ -289,24 +325,20 @@ def cb_tables():
 
 
 def main():
-    net = read("filters/network.rs")
-    req = read("request.rs")
-    rs = read("resources/resource_storage.rs")
-    resmod = read("resources/mod.rs")
-    nfl = read("network_filter_list.rs")
-    utils = read("utils.rs")
-    absn = read("filters/abstract_network.rs")
-
-    bits, comps = mask_bits(net)
-    rtm = req_type_map(net)
-    cpt, cpt_default = cpt_match(req)
-    rtypes = req_types(req)
-    esc = escaped_table(rs)
-    bad = bad_tokens(nfl)
-    tmax = token_consts(utils)
-    opts = option_table(absn)
-    mimes, no_redirect, inj = mime_tables(resmod)
-    ser = serialize_fields()
+    bits, comps = section("mask", lambda: mask_bits(read("filters/network.rs")))
+    bits = dict(bits); comps = dict(comps)
+    rtm = section("reqtypemap", lambda: req_type_map(read("filters/network.rs")))
+    cpt, cpt_default = section("cpt", lambda: cpt_match(read("request.rs")))
+    rtypes = section("reqtypes", lambda: req_types(read("request.rs")))
+    esc = section("escaped", lambda: escaped_table(read("resources/resource_storage.rs")))
+    bad = section("badtokens", lambda: bad_tokens(read("network_filter_list.rs")))
+    tmax = section("tokenconsts", lambda: token_consts(read("utils.rs")))
+    opts = section("options", lambda: option_table(read("filters/abstract_network.rs")))
+    mimes, no_redirect, inj = section("mime", lambda: mime_tables(read("resources/mod.rs")))
+    ser = section("serialize", serialize_fields)
+    cells = section("cells", shared_cells)
+    accessors, locks = section("locks", lock_fns)
+    special, cbflags = section("cb", cb_tables)
 
     L = ["-- GENERATED by tools/extract_tables.py from /repo/src on every run. Do not edit.",
          "namespace Adb.Gen", ""]
@@ -352,7 +384,6 @@ def main():
     L.append("/-- every HashMap/HashSet field of a `Serialize` struct of the wire format with its `serialize_with` -/")
     L.append("def hashContainerFields : List (String × String × String × String) := [" + ", ".join(
         f"({lean_str(a)}, {lean_str(b)}, {lean_str(c)}, {lean_str(d)})" for a, b, c, d in ser) + "]")
-    special, cbflags = cb_tables()
     L.append("")
     L.append("/-- content_blocking.rs: characters of `SPECIAL_CHARS` (escaped with a backslash in url-filter) -/")
     L.append(f"def cbSpecialChars : String := {lean_str(special)}")
@@ -362,14 +393,23 @@ def main():
     L.append("")
     L.append("/-- every struct field of an interior-mutability type, every `static`, `thread_local!` and `unsafe impl` of the library: (file, container, name, type) -/")
     L.append("def sharedCells : List (String × String × String × String) := [" + ", ".join(
-        f"({lean_str(a)}, {lean_str(b)}, {lean_str(c)}, {lean_str(d)})" for a, b, c, d in shared_cells()) + "]")
-    L.append("/-- methods of `impl Blocker`: (name, receiver, borrow_regex_manager() calls, let-bound ones, direct cell uses / guard drops, self-calls) -/")
+        f"({lean_str(a)}, {lean_str(b)}, {lean_str(c)}, {lean_str(d)})" for a, b, c, d in cells) + "]")
+    L.append("/-- the methods of `impl Blocker` that touch the regex-manager cell directly -/")
+    L.append("def lockAccessors : List String := [" + ", ".join(lean_str(a) for a in accessors) + "]")
+    L.append("/-- methods of `impl Blocker`: (name, receiver, accessor calls, let-bound ones, direct cell uses / guard drops, self-calls) -/")
     L.append("def lockFns : List (String × String × Nat × Nat × Nat × List String) := [" + ", ".join(
-        f"({lean_str(n)}, {lean_str(r)}, {b}, {lb}, {d}, [" + ", ".join(lean_str(c) for c in cs) + "])" for n, r, b, lb, d, cs in lock_fns()) + "]")
+        f"({lean_str(n)}, {lean_str(r)}, {b}, {lb}, {d}, [" + ", ".join(lean_str(c) for c in cs) + "])" for n, r, b, lb, d, cs in locks) + "]")
     L.append("")
     L.append("end Adb.Gen")
     text = "\n".join(L) + "\n"
     os.makedirs(os.path.dirname(OUT), exist_ok=True)
+    json.dump({"failed": FAILED}, open(STATUS_FILE, "w"), indent=1)
+    if "--write-fallback" in sys.argv:
+        if FAILED:
+            print("extract_tables: refusing to write a fallback from a partial extraction")
+            sys.exit(1)
+        json.dump(VALUES, open(FALLBACK_FILE, "w"), indent=1)
+        print("extract_tables: wrote", FALLBACK_FILE)
     if not os.path.exists(OUT) or open(OUT).read() != text:
         open(OUT, "w").write(text)
         print("extract_tables: wrote", OUT)
